@@ -362,6 +362,8 @@ def run(m, tier):
     for f in r9.findings:
         f.rule = "C16.R7"
     results = [r1_scoping_set(m, ctx, blocks), r2, r3_lookup(m), r4_intrinsic(m), r5_recorded(m), r8, r9, r8_intrinsic_tables(m)]
+    from rules import order_rules
+    results.append(order_rules.recording_loops_rule(m, "C16.R9"))
     expl = ("Decides structural clauses of C16: the set of scoping classes equals the property's list and each opens a block-engine "
             "call site; scope enter/exit pairing on every path (typestate, shared with C09); lookup consults own symbols, used modules "
             "and ancestors only, and a new scope is nested under the current one; an intrinsic reference is produced only after an "
